@@ -59,8 +59,16 @@ func init() {
 						}
 					}
 				}
+				// the values of the known findings K9 / K10 only where they are put deliberately (below)
+				for j := range p {
+					for oi, o := range p[j].Opts {
+						if o.T == "field" && ((o.Key == 13 && (o.Val == maxF32Value(true) || o.Val == maxF32Value(false))) || (o.Key == 26 && o.Val == nilSliceValue())) {
+							p[j].Opts[oi].Val = valuesFor(keyPool[o.Key], valuePool())[0]
+						}
+					}
+				}
 				d := c09Desc{Prog: p, Builtin: r.Chance(1, 3), Strict: r.Chance(1, 3), RegRev: r.Bool()}
-				switch r.Intn(12) {
+				switch r.Intn(20) {
 				case 0: // K2: a built-in field whose JSON form is produced by MarshalText
 					d.Builtin = true
 					d.Prog[0].Opts = append(d.Prog[0].Opts, POpt{T: "field", Key: keyLogLevel, Val: valuesFor(keyPool[keyLogLevel], valuePool())[0]})
@@ -69,6 +77,8 @@ func init() {
 					d.Prog[0].Opts = append(d.Prog[0].Opts, POpt{T: "field", Key: keyHTTPStatus, Val: 3})
 				case 2: // K3
 					d.Default, d.Strict = true, false
+				case 5: // K10: a field whose value marshals as JSON null
+					d.Prog[0].Opts = append(d.Prog[0].Opts, POpt{T: "field", Key: 26, Val: nilSliceValue()})
 				case 4: // K9: a float32 field holding +-MaxFloat32
 					d.Prog[0].Opts = append(d.Prog[0].Opts, POpt{T: "field", Key: 13, Val: maxF32Value(r.Bool())})
 				case 3: // K4: a foreign cause with an empty message
@@ -86,6 +96,16 @@ func init() {
 			return []Case{runC09(d)}, nil
 		},
 	})
+}
+
+// nilSliceValue: pool index of []int(nil)
+func nilSliceValue() int {
+	for i, v := range valuePool() {
+		if s, ok := v.V.([]int); ok && s == nil {
+			return i
+		}
+	}
+	panic("no nil slice in the value pool")
 }
 
 // maxF32Value: pool index of float32(+-MaxFloat32)
@@ -358,6 +378,9 @@ func runC09(d c09Desc) Case {
 		for _, o := range s.Opts {
 			if o.T == "field" && o.Key == 13 && (o.Val == maxF32Value(true) || o.Val == maxF32Value(false)) {
 				tags = append(tags, "float32-maxfloat32-roundtrip")
+			}
+			if o.T == "field" && o.Key == 26 && o.Val == nilSliceValue() {
+				tags = append(tags, "null-valued-field")
 			}
 		}
 	}
